@@ -7,5 +7,9 @@ PY=/venv/bin/python
 if ! PYTHONPATH="$PWD/.deps" $PY -c "import hypothesis" 2>/dev/null; then
     $PY -m pip install --no-index --find-links /opt/veriftools/wheels --target "$PWD/.deps" hypothesis
 fi
+# atheris (coverage-guided fuzzing legs of the thorough tier); optional: the legs report "skipped" without it
+if ! PYTHONPATH="$PWD/.deps" $PY -c "import atheris" 2>/dev/null; then
+    $PY -m pip install --no-index --find-links /opt/veriftools/wheels --target "$PWD/.deps" atheris >/dev/null 2>&1 || echo "setup: atheris not installed (fuzz legs will be skipped)"
+fi
 PYTHONPATH="$PWD/.deps" $PY -c "import hypothesis, numpy, mip; print('setup ok: hypothesis', hypothesis.__version__)"
 mkdir -p evidence replays
